@@ -386,6 +386,17 @@ where
                                 dynamic_props.insert("textContent".into());
                             }
                             Directive::VModel(directive) => {
+                                // the target is written again in the listener, a function that
+                                // is neither async nor a generator
+                                if let Some(span) = util::find_await_or_yield(&directive.value) {
+                                    HANDLER.with(|handler| {
+                                        handler.span_err(
+                                            span,
+                                            "`await` and `yield` can't be used in the target of \
+                                             `v-model`: it is assigned to later, inside a listener.",
+                                        )
+                                    });
+                                }
                                 // hygienic, so that it can't capture a user's `$event`
                                 let event = private_ident!("$event");
                                 if is_component {
